@@ -70,3 +70,15 @@ def text_of(entry_id):
 # ---------------------------------------------------------------------------
 # predicates (each looks only at the failing case)
 
+
+def _touching(ranges):
+    for i in range(0, len(ranges) - 3, 3):
+        if ranges[i] + ranges[i + 1] == ranges[i + 3]:
+            return True
+    return False
+
+
+@predicate("palindrome-map-with-touching-ranges")
+def _c08_touching(case, observed):
+    """C08 mirror round trip: some map of the palindrome has two ranges that touch (gap 0)."""
+    return case.get("kind") == "mapping" and any(_touching(m[0]) for m in case.get("maps", []))
